@@ -50,6 +50,10 @@ CHECKS["C12"] = dict(level="exploration", ref="DESIGN.md §5 C12",
    technique="Hypothesis-generated schema classes (real metaclass) from the documented field-type grammar + all installed schema plugins (versioned, unversioned and [] access); hint-directed constructive instance recipes; round-trip oracle over bytes/JSON/YAML/json_dict, second-trip stability, byte identity for set-free instances, constant-field presence and input-ignorance against the class description",
    text="Generated search over classes and instances; the oracle is the round-trip identity itself plus independently known constants. Unions are restricted to members with disjoint serialised forms (others are order-dependent by construction). Bounded nesting depth 3; sampling.",
    note=TB + "; pydantic v1 / pydantic_yaml / isodate / pint are part of the code under test's dependencies and trusted for construction-time validation")
+CHECKS["C14"] = dict(level="exploration", ref="DESIGN.md §5 C14",
+   technique="Hypothesis-generated classes and installed schemas; triples of partials from six origins (parse_obj, JSON, YAML, MetadataLoader harvester, to_partial, FileMetaHarvester); algebraic laws (identity, associativity), operand snapshots, and a reference merge written from the documented rule; conflict-free 'split' generator + independent generator for conflicts",
+   text="Generated search checking monoid laws, non-mutation, losslessness and the overwrite/conflict contract against an independent reference merge. Two listed known findings (partial class of example.matsci.info cannot be built; datetime truncated by from_partial) are reported as KNOWN-FINDING; date-times with a time part are excluded from the generators by construction.",
+   note=TB + "; values are read from the instances' attribute dicts, the merge rule itself is re-implemented in the harness")
 NOT_YET = {}
 def main():
     props = [json.loads(l) for l in open(os.path.join(HERE, "properties.jsonl"))]
